@@ -97,6 +97,11 @@ def run_shard(shard, tier, seed, wd, res):
         for _ in range(6):
             s.op(gp + ".iso", lit(None))
         s.op(gp + ".iso", V.proj(g, f.zero, f.one, f.zero))
+        # every special scaling (-1, 2, zero components, roots of unity of order 3, 6, 8) on a few points
+        for _ in range(3):
+            P = iso.random_point(rng)
+            for lam in G.special_lambdas(g, rng):
+                s.op(gp + ".iso", lit(P, lam))
     elif part == "points":
         for _ in range(150 if g == 1 else 120):
             P = iso.random_point(rng)
